@@ -8,7 +8,10 @@ Decided (Transaction::build_manifest, stable row ids):
           that stamp, under the stable-row-id guard, after row ids were assigned;
           Update: new fragments get last_updated_at_version_meta from that stamp (created_at is carried over from the
           original fragments or falls back to the stamp)
-Not decided: the per-row version sequences themselves, carry-over through compaction, the delta queries (values).
+  ORDER   in RowDatasetVersionSequence::mask and its sibling RowIdSequence::mask (used by compaction to drop deleted rows from
+          the per-row sequences) the length of the current run that feeds the position arithmetic is read before the run is
+          masked in that iteration: positions are offsets into the sequence as it was on entry
+Not decided: the per-row version sequences themselves (values), the delta queries.
 """
 from engine.cfg import op_place, expr_of
 from engine.facts import AnchorMissing
@@ -86,6 +89,93 @@ def run(db, chk):
         chk.ob(R2, "%s:only-with-stable-row-ids" % var, guarded, "%s arm stamps versions only under a test of the row-id counter (stable row ids)" % var, f.loc())
     chk.sample({"build_version_meta_sites": [t["ln"] for _, t in bvm]})
     chk.assume("build_version_meta(fragment, v) stamps every physical row of the fragment with v")
+    check_positions_refer_to_entry_state(db, chk)
+    check_row_ids_are_not_addresses(db, chk)
+
+
+MASKS = ((r"rowids::version::RowDatasetVersionSequence::mask$", "lance-table/src/rowids/version.rs"),
+         (r"rowids::RowIdSequence::mask$", "lance-table/src/rowids.rs"))
+
+
+def check_positions_refer_to_entry_state(db, chk):
+    """Compaction drops deleted rows from the per-row version sequences (and the row-id sequence) with `mask(positions)`;
+    the positions are offsets into the sequence as it is on entry.  The loop keeps a running position and deletes from the
+    current run / segment as it goes, so the run's length has to be read BEFORE the deletion of that iteration: a length read
+    afterwards is short by the rows just deleted, every later position is attributed one run too early, and surviving rows
+    take over a neighbour's created-at / last-updated version (the row count stays right, so nothing else notices)."""
+    R = "ORDER-length-before-deletion"
+    chk.rule(R, "in the sequence mask loops, a length of the current run that feeds the position arithmetic is read before the "
+                "run is masked in that iteration (no such read is reachable from the deletion without passing the loop head)")
+    for pat, file in MASKS:
+        f = db.one(pat, file=file)
+        chk.analysed(f)
+        c = f.cfg
+        who = f.path.split("::")[-2]
+        nexts = {b for b, t in c.calls() if has_name(t, "IterMut") and name_of(t).endswith("::next")}
+        def from_loop(t):
+            return any(o[0] == "call" and o[2] in nexts for o in c.op_origins(t["args"][0], transparent=lambda t_: False))
+        muts = [(b, t) for b, t in c.calls() if name_of(t).endswith("U64Segment::mask") and from_loop(t)]
+        lens = [(b, t) for b, t in c.calls() if name_of(t).endswith("::len") and t["args"] and from_loop(t)]
+        feeding = []
+        for b, t in lens:
+            for i, j, st in c.stmts():
+                rv = st.get("rv") or {}
+                if rv.get("r") == "bin" and str(rv.get("op", "")).startswith("Add"):
+                    if any(any(o[0] == "call" and o[2] == b and o[1].endswith("::len") for o in c.op_origins(rv[x], transparent=lambda t_: False)) for x in ("a", "b")):
+                        feeding.append((b, t))
+                        break
+        chk.ob(R, "anchors:%s" % who, len(nexts) == 1 and len(muts) >= 1 and len(feeding) >= 1,
+               "%s::mask: %d loop over the runs, %d deletion(s) from the current run, %d length read(s) feeding the position arithmetic" % (
+                   who, len(nexts), len(muts), len(feeding)), f.loc())
+        late = [(lb, mb) for lb, _ in feeding for mb, _ in muts if lb in c.reachable_from([mb], avoid=sorted(nexts))]
+        chk.ob(R, "length-before-deletion:%s" % who, bool(feeding) and not late,
+               "%s::mask: %s" % (who, "every length that feeds the positions is read before the run is masked" if not late else
+                                 "a length feeding the positions is read after the run was masked in the same iteration (blocks %s)" % late),
+               f.loc(feeding[0][1]["ln"]) if feeding else f.loc())
+
+
+def _has_call(e, sub, d=0):
+    if not isinstance(e, tuple) or d > 30:
+        return False
+    if e[0] == "call":
+        return sub in (e[1] or "") or any(_has_call(a, sub, d + 1) for a in e[2])
+    return any(_has_call(x, sub, d + 1) for x in e[1:] if isinstance(x, tuple))
+
+
+def check_row_ids_are_not_addresses(db, chk):
+    """A RowIdSequence exists only with stable row ids, and its elements are then sequence numbers, not (fragment << 32 | offset)
+    addresses: taking such an element apart with `>> 32` / `& 0xFFFF_FFFF` (or RowAddress::from) looks the row up in fragment 0
+    at offset = id.  Where the created-at version of a rewritten row is fetched that way, every row that was not created
+    in the first fragment gets another row's version or the fallback."""
+    R = "ORIGIN-row-id-not-address"
+    chk.rule(R, "no element of a RowIdSequence is split into fragment id and offset (`>> 32`, `& 0xFFFFFFFF`, RowAddress::from / new_from_u64)")
+    n = sites = 0
+    for f in sorted(db.fns.values(), key=lambda f: (f.file, f.line)):
+        if not f.focus:
+            continue
+        c = f.cfg
+        hits = []
+        for i, j, st in c.stmts():
+            rv = st.get("rv") or {}
+            if rv.get("r") == "bin" and ((str(rv.get("op")).startswith("Shr") and rv["b"].get("v") == 32) or
+                                         (str(rv.get("op")).startswith("BitAnd") and rv["b"].get("v") == 0xFFFFFFFF)):
+                sites += 1
+                if _has_call(expr_of(f, rv["a"]), "RowIdSequence"):
+                    hits.append((st.get("ln"), "`%s`" % (">> 32" if str(rv["op"]).startswith("Shr") else "& 0xFFFFFFFF")))
+        for b, t in c.calls():
+            if has_name(t, "RowAddress as std::convert::From<u64>>::from", "RowAddress::new_from_u64") and t["args"]:
+                sites += 1
+                if _has_call(expr_of(f, t["args"][0]), "RowIdSequence"):
+                    hits.append((t.get("ln"), "RowAddress::from"))
+        if hits:
+            n += 1
+            chk.analysed(f)
+            chk.ob(R, "%s" % f.root().path, False,
+                   "%s takes elements of a RowIdSequence (stable row ids) apart as addresses: %s" % (f.path, ", ".join("%s at line %s" % (h[1], h[0]) for h in hits)),
+                   f.loc(hits[0][0]))
+    chk.floor(R, "address-arithmetic sites examined", sites, 10)
+    if not n:
+        chk.ob(R, "none", True, "%d address-arithmetic sites examined; none of them works on an element of a RowIdSequence" % sites, None)
 
 
 def _behind(c, local, limit=300):
